@@ -11,7 +11,8 @@ for d in sorted(glob.glob(os.path.join(V, "seeded", "*"))):
     c = m.get("checks", {}).get(m["property"], {})
     subs = sorted({l.split("]")[0].strip(" [").split("/")[0] for l in c.get("first", []) if l.strip().startswith("[")})
     h = m.get("history", "")
-    hist = ("initially MISSED, caught after strengthening" if h.startswith("MISSED") else "not caught - by design (undocumented threshold, property still holds)" if h.startswith("NOT CAUGHT")
+    hist = ("neutralised by a repair of the tree (" + m["neutralised_by"] + "): no longer property-breaking; caught on the tree before it" if m.get("neutralised_by")
+            else "initially MISSED, caught after strengthening" if h.startswith("MISSED") else "not caught - by design (undocumented threshold, property still holds)" if h.startswith("NOT CAUGHT")
             else "caught" if m.get("caught_by") else "MISSED")
     rows.append(f"| {name} | {m.get('what','')[:150]} | {m.get('needs_to_manifest','')[:170]} | {hist} | {', '.join(subs)} |")
 print("| change | what was changed | needs, to manifest | quick check | first sub-check(s) to fire |\n|---|---|---|---|---|")
